@@ -237,7 +237,7 @@ def eptmapresult_unpack_any(c):
     n = Z(c.len(data))
     c.raises("Exception", when=None)
     c.raises_only({"Exception"})
-    c.ghost_bound("ticks", 2 * n + 16)
+    c.ghost_bound("ticks", 2 * n + 16, on_raise=2 * n + 16)
     c.ghost_bound("copied", n + 64)
     L = lambda v: Z(c.len(v))  # noqa: E731
     havoc = {"tower": _opaque_list, "towers": _opaque_list}
